@@ -213,3 +213,13 @@ Theorem generated_filter_tables_wrappers_ed :
   ltac:(let t := type of filter_tables_rows_end_to_end_ed in exact t).
 Proof. exact filter_tables_rows_end_to_end_ed. Qed.
 Print Assumptions generated_filter_tables_wrappers_ed.
+
+
+(* ---- float threshold under EDIT_DISTANCE (source repair: int(floor(threshold)) in the formulas):
+   dropped iff the counts differ by more than f, Python's exact comparison  |a - b| > f *)
+From SSJ Require Import ThresholdNorm ThresholdNormFloat.
+Theorem C14_size_edit_distance_float :
+  forall (q : Z) (f : f64), f_is_finite f = true -> forall (a b : Z) (ae : bool), ~ (a = 0 /\ b = 0) ->
+  (size_filter_pair (edpf q f) ae a b = true <-> py_truth (py_gt (PInt (Z.abs (a - b))) (PFloat f)) = true).
+Proof. exact F4_ED_float. Qed.
+Print Assumptions C14_size_edit_distance_float.
